@@ -206,34 +206,66 @@ func genCase(t *rapid.T) Case {
 		c.IDs = append(c.IDs, id)
 	}
 	c.NodeIDs = []Str{{Lit: "node-1"}, {Lit: rapid.SampledFrom([]string{"node-2", "node-1:addr", "节点:二", "n*", "node 3", "tunnox:node:node-1"}).Draw(t, "nodeID")}}
-	kinds := []string{"register", "register", "register", "register", "register", "lookup", "lookup", "lookup", "lookup", "lookup", "lookup",
-		"remove", "remove", "sleepPast", "sleepPast", "sleepShort", "regaddr", "getaddr"}
+	kinds := []string{"register", "register", "register", "register", "lookup", "lookup", "lookup", "lookup", "lookup",
+		"remove", "remove", "sleepPast", "sleepPast", "sleepPast", "sleepShort", "regaddr", "getaddr"}
 	n := rapid.IntRange(3, 14).Draw(t, "nops")
 	past, short := 0, 0
+	// generation-time sketch of the history (which ids were registered, which would lapse on a long sleep):
+	// it only steers the draw towards lookups that can resolve or must have lapsed; the oracle never reads it.
+	var known []int           // ids registered at least once
+	lapsing := map[int]bool{} // ids currently registered through a short-ttl node
+	var afterSleep []int
+	pickID := func() int {
+		if len(afterSleep) > 0 && rapid.IntRange(0, 3).Draw(t, "chase") > 0 {
+			return afterSleep[rapid.IntRange(0, len(afterSleep)-1).Draw(t, "lapsed")]
+		}
+		if len(known) > 0 && rapid.IntRange(0, 3).Draw(t, "preferKnown") > 0 {
+			return known[rapid.IntRange(0, len(known)-1).Draw(t, "known")]
+		}
+		return rapid.IntRange(0, nid-1).Draw(t, "id")
+	}
 	for i := 0; i < n; i++ {
 		k := rapid.SampledFrom(kinds).Draw(t, "kind")
+		if len(afterSleep) > 0 && rapid.IntRange(0, 2).Draw(t, "lookAfterSleep") > 0 {
+			k = "lookup"
+		}
+		if k == "sleepPast" && (past >= 2 || len(lapsing) == 0) {
+			k = "register"
+		}
+		if k == "sleepShort" && short >= 3 {
+			k = "lookup"
+		}
 		op := Op{Node: rapid.IntRange(0, nn-1).Draw(t, "node")}
 		switch k {
 		case "register":
 			op.Kind = "register"
-			op.ID = rapid.IntRange(0, nid-1).Draw(t, "id")
+			op.ID = pickID()
 			op.State = genState(t, op.Node)
 			op.Mutate = rapid.SampledFrom([]string{"", "", "", "fields", "tunnelid"}).Draw(t, "mutate")
-		case "lookup", "remove":
-			op.Kind = k
-			op.ID = rapid.IntRange(0, nid-1).Draw(t, "id")
-		case "sleepPast":
-			if past >= 2 {
-				op.Kind, op.ID = "lookup", rapid.IntRange(0, nid-1).Draw(t, "id")
-				break
+			known = append(known, op.ID)
+			if c.TTLms[op.Node] == shortTTLms {
+				lapsing[op.ID] = true
+			} else {
+				delete(lapsing, op.ID)
 			}
+		case "lookup":
+			op.Kind = k
+			op.ID = pickID()
+		case "remove":
+			op.Kind = k
+			op.ID = pickID()
+			delete(lapsing, op.ID)
+		case "sleepPast":
 			past++
 			op.Kind, op.Ms, op.FF = "sleep", sleepPastMs, rapid.Bool().Draw(t, "ff")
-		case "sleepShort":
-			if short >= 3 {
-				op.Kind, op.ID = "lookup", rapid.IntRange(0, nid-1).Draw(t, "id")
-				break
+			afterSleep = afterSleep[:0]
+			for id := 0; id < nid; id++ {
+				if lapsing[id] {
+					afterSleep = append(afterSleep, id)
+				}
 			}
+			lapsing = map[int]bool{}
+		case "sleepShort":
 			short++
 			op.Kind, op.Ms, op.FF = "sleep", sleepShortMs, rapid.Bool().Draw(t, "ff")
 		case "regaddr":
@@ -354,8 +386,6 @@ func buildBackends(ttls []int) []*backend {
 // execution + oracle
 
 type failure struct{ key, detail string }
-
-var probeDebug func(backend string, err error, id string)
 
 const guard = 25 * time.Millisecond // tolerated wall-clock adjustment between a registration and a lookup
 
@@ -569,9 +599,6 @@ func runCase(c Case) (*failure, *stats) {
 					}
 					peer := (op.Node + 1) % len(b.tables)
 					got, lerr := b.tables[peer].LookupWaitingTunnel(ctx, id)
-					if lerr != nil && probeDebug != nil {
-						probeDebug(b.name, lerr, id)
-					}
 					if lerr == nil && got != nil {
 						if f, _, _ := compare(id, op.State, got); f == "" {
 							st.copied[b.name] = true
@@ -770,6 +797,9 @@ func check(t vkit.TB, c Case) {
 	if st.removeLookup > 0 {
 		vkit.Class("feat:lookup-after-remove")
 	}
+	if st.expiryLookup > 0 {
+		vkit.Class("feat:lookup-after-expiry")
+	}
 	if st.lagging > 0 && st.expiryLookup > 0 {
 		vkit.Class("feat:expiry-with-lagging-store-ttl")
 	}
@@ -786,7 +816,7 @@ func check(t vkit.TB, c Case) {
 
 // TestRouting is the generated search.
 func TestRouting(t *testing.T) {
-	vkit.Check(t, 1600, 24000, func(t *rapid.T) {
+	vkit.Check(t, 2400, 36000, func(t *rapid.T) {
 		check(t, genCase(t))
 	})
 }
